@@ -518,7 +518,7 @@ func (w *World) checkTable(ts *tableSpec, idxType types.Type) ([]tableRow, error
 			}
 		}
 		sort.Strings(extra)
-		rows = append(rows, tableRow{Name: "(no other rows)", Actual: strings.Join(extra, ","), Expected: "", OK: len(extra) == 0})
+		rows = append(rows, tableRow{Name: "no-other-rows", Actual: strings.Join(extra, ","), Expected: "", OK: len(extra) == 0})
 	}
 	return rows, nil
 }
